@@ -57,8 +57,11 @@ func genFilterQuery(r *rand.Rand, schema models.IndexSchema, name string) *model
 		o := &models.SearchFloatOptions{Value: v, Operator: op}
 		if op == models.OperatorInRange {
 			e := pick(r, floatPool)
+			for tries := 0; !(e > v) && !(e < v) && tries < 20; tries++ {
+				e = pick(r, floatPool)
+			}
 			if !(e > v) && !(e < v) {
-				e = v + math.Max(1, math.Abs(v)*0.5)
+				v, e = -1, 1
 			}
 			if e < v {
 				v, e = e, v
